@@ -318,7 +318,7 @@ def dh_roles(server: bool, t: int) -> bool:
 OBLIGATIONS = [
     Ob('choose_alg', choose_alg,
        sym=dict(n=R(0, 3), i0=R(0, 3), i1=R(0, 3), i2=R(0, 3), m=R(0, 3), j0=R(0, 3), j1=R(0, 3), j2=R(0, 3)),
-       shards=dict(server=[True, False], n=[0, 1, 2, 3], m=[0, 1, 2, 3]), timeout=200,
+       shards=dict(server=[True, False], n=[0, 1, 2, 3], m=[0, 1, 2, 3]), timeout=500,
        functions=[C.SSHConnection._choose_alg],
        bounds='both lists of length <= 3 over a 4-name alphabet (duplicates allowed), both roles'),
     Ob('negotiate', negotiate,
